@@ -56,7 +56,7 @@ func (c *Ctx) ruleMinZero(rule string, tb *ir.TB) {
 }
 
 func c13(c *Ctx) {
-	c.R.Explanation = "C13: the override discipline, decided on the SSA of /repo. R-replace = AttachFanRpmCurveData overwrites the curve-data field (the one GetFanRpmCurveData returns) with the attached data or a copy made in the call on every path before ComputePwmBoundaries, so limits follow the data attached, not a union with earlier data. R-writers = the limit fields {MinPwm,StartPwm,MaxPwm} of every Fan implementation are stored only in composite literals (construction from the configuration) and in that type's three setters; FanConfig.{MinPwm,StartPwm,MaxPwm} are stored only in composite literals; nothing is stored *through* those pointers. R-guard = in each setter the store is reachable only across an edge establishing Config.<same field> == nil or force == true. R-force = every setter call reachable from an AttachFanRpmCurveData implementation passes the constant false, and no other call site in the repository passes a non-false force. R-min0 = every GetMinPwm implementation returns the constant 0 unless never-stop was established. R-empty = every AttachFanRpmCurveData implementation that changes limits returns a non-nil error, before touching any limit or the curve data, on the edges data == nil and len(*data) <= 0. R-wholerpm = in the boundary computation every comparison on a value read from the curve data has integer-typed operands (the statement's 'in whole RPM'). Not decided: that the scan picks the right keys (functional correctness)."
+	c.R.Explanation = "C13: the override discipline, decided on the SSA of /repo. R-replace = AttachFanRpmCurveData overwrites the curve-data field (the one GetFanRpmCurveData returns) with the attached data or a copy made in the call on every path before ComputePwmBoundaries, so limits follow the data attached, not a union with earlier data. R-writers = the limit fields {MinPwm,StartPwm,MaxPwm} of every Fan implementation are stored only in composite literals (construction from the configuration) and in that type's three setters; FanConfig.{MinPwm,StartPwm,MaxPwm} are stored only in composite literals; nothing is stored *through* those pointers. R-guard = in each setter the store is reachable only across an edge establishing Config.<same field> == nil or force == true. R-force = every setter call reachable from an AttachFanRpmCurveData implementation passes the constant false, and no other call site in the repository passes a non-false force. R-min0 = every GetMinPwm implementation returns the constant 0 unless never-stop was established. R-empty = every AttachFanRpmCurveData implementation that changes limits returns a non-nil error, before touching any limit or the curve data, on the edges data == nil and len(*data) <= 0. R-wholerpm = in the boundary computation every comparison on a value read from the curve data has integer-typed operands (the statement's 'in whole RPM'). R-derive = for every effective-limit getter the boundary computation consults (an override hook such as `if fan.GetStartPwm() < 255`), every path of the attach implementation to the computation first calls the matching setter with a constant and force=false (directly or in the helper that derives the limits), so a value measured from previously attached data does not stick. Not decided: that the scan picks the right keys (functional correctness)."
 	tb := ir.NewTB(c.P.IsRepoFunc, c.P.FuncKey)
 	tb.InlineMaxBlocks = 0
 
